@@ -136,6 +136,71 @@ func c12Timeouts(r *verdict.Run) {
 			r.Distinct("timeout/" + f.name + "/0")
 		}(f, fi)
 	}
+	// the deadline is fixed when the command is issued: wake-ups that find nothing (an element pushed and taken again
+	// inside one MULTI/EXEC of another client) must not extend it
+	c.Ctl("watch blk:retry-failed")
+	for fi, f := range blkForms {
+		for ti, t := range []string{"0.5", "1"} {
+			wg.Add(1)
+			go func(f blkForm, t string, n int) {
+				defer wg.Done()
+				w, err := newWaiter(e)
+				if err != nil {
+					return
+				}
+				defer w.cn.Close()
+				waker, err := e.dial()
+				if err != nil {
+					return
+				}
+				defer waker.Close()
+				key := fmt.Sprintf("wq-%d", n)
+				cmd := f.args([]string{key}, t)
+				secs, _ := strconv.ParseFloat(t, 64)
+				want := time.Duration(secs * float64(time.Second))
+				from := c.EventCount()
+				w.issue(cmd, 6*want+8*time.Second)
+				wakes := 0
+				for start := time.Now(); time.Since(start) < 5*want+time.Second; {
+					if w.finished(want / 3) {
+						break
+					}
+					waker.Pipeline([][]string{{"MULTI"}, {"RPUSH", key, "ghost"}, {"LPOP", key}, {"EXEC"}})
+					wakes++
+				}
+				<-w.done
+				r.Eval(1)
+				el := time.Duration(w.t1 - w.t0)
+				failedRetries := 0
+				for _, ev := range c.EventsSince(from) {
+					if ev.Kind == "hit" && ev.Point == "blk:retry-failed" && ev.ID == w.id {
+						failedRetries++
+					}
+				}
+				rep := map[string]any{"command": cmd, "elapsed_ms": el.Milliseconds(), "timeout_s": t, "wakeups_sent": wakes, "retries_that_found_nothing": failedRetries}
+				if w.err != nil || !w.reply.Null {
+					r.Report("timeout/woken-without-element/wrong-ending/"+f.name, fmt.Sprintf("%s with empty wake-ups: reply %s %v", cmdString(cmd), w.reply, w.err), rep)
+					return
+				}
+				if el < want-time.Millisecond {
+					r.Report("timeout/too-early/"+f.name, fmt.Sprintf("%s completed after %v, before its timeout (after %d empty wake-ups)", cmdString(cmd), el, failedRetries), rep)
+				}
+				if failedRetries == 0 {
+					r.Count("wakeup_cases_without_an_observed_empty_retry", 1)
+				} else if el > want+1500*time.Millisecond {
+					cmu.Lock()
+					wst := worst
+					cmu.Unlock()
+					if wst < 100*time.Millisecond {
+						r.Report("timeout/extended-by-empty-wakeups/"+f.name, fmt.Sprintf("%s completed after %v: %d wake-ups that found nothing (every %v) pushed its timeout of %s back, although the canary always answered within %v", cmdString(cmd), el, failedRetries, want/3, t, wst), rep)
+					} else {
+						r.Inconclusive("machine overloaded during the timeout test")
+					}
+				}
+				r.Distinct("timeout-with-empty-wakeups/" + f.name + "/" + t)
+			}(f, t, fi*10+ti)
+		}
+	}
 	// invalid timeouts are errors (and do not block)
 	for _, f := range blkForms {
 		// (a negative timeout is rejected by Redis; the emulator answers null at once and its own tests pin that,
